@@ -70,13 +70,21 @@ def gen_case(rng, incremental):
         lines.append('expandb %d %s %d' % (rng.choice([0, 1, 2, 3, 4, 5]), rule, arg))
     if incremental:
         d = rng.choice([-1, 1, 2, 3, 3])
-        for v, f in sorted(vs.items(), key=lambda x: rng.random()): lines.append('edge %d %d %d %d' % (v, v, f, d))
         in_order = rng.random() < 0.5
         elist = sorted(es.items(), key=(lambda x: (x[1], x[0])) if in_order else (lambda x: rng.random()))
+        # vertices: all first (half of the cases), or each one at a random moment before its first edge / at the very end when isolated
+        late = rng.random() < 0.5; done = set(); seq = []
+        first = [v for v, f in sorted(vs.items(), key=lambda x: rng.random()) if not late or rng.random() < 0.3]
+        for v in first: seq.append((v, v, vs[v])); done.add(v)
         for (a, b), w in elist:
-            u, v = (a, b) if rng.random() < 0.5 else (b, a); lines.append('edge %d %d %d %d' % (u, v, w, d))
-        if not in_order: lines.append('mfnd')
-        lines.append('cplx')
+            for x in sorted((a, b), key=lambda x: rng.random()):
+                if x not in done: seq.append((x, x, vs[x])); done.add(x)
+            seq.append(((a, b) if rng.random() < 0.5 else (b, a)) + (w,))
+        for v in sorted(vs, key=lambda x: rng.random()):
+            if v not in done: seq.append((v, v, vs[v])); done.add(v)
+        for u, v, w in seq: lines.append('edge %d %d %d %d' % (u, v, w, d))
+        if [w for _, _, w in seq] != sorted(w for _, _, w in seq): lines.append('mfnd')
+        lines += ['cplx', 'inceq %d' % d]
     if rng.random() < 0.5:
         n = rng.randrange(2, 7); dm = [rng.randrange(1, 6) for _ in range(n * (n - 1) // 2)]
         lines.append('ripsm %d %d %d %s' % (n, rng.randrange(0, 7), rng.randrange(0, 4), ' '.join(map(str, dm))))
@@ -119,6 +127,8 @@ def oracle(case, impl):
             want = cliques(ivs, ies, None if dd[0] < 0 else dd[0])
             if inc != want: return 'python bookkeeping of the incremental route differs from the clique complex (generator bug)'
             exp = show(want)
+        elif o == 'inceq':
+            exp = 'inceq dim=%d eq=1' % max([len(x) - 1 for x in inc] + [-1])
         elif o == 'ripsm':
             n, thr, dim = int(t[1]), int(t[2]), int(t[3]); ds = [int(x) for x in t[4:]]; e2 = {}; idx = 0
             for i in range(n):
@@ -167,7 +177,7 @@ def run(ctx):
             if len(chosen) >= 5: c += ['expandb 3 mask %d' % m for m in (7, 11, 13, 14)]           # block exactly one triangle of {0,1,2,3}
             for v in range(4): c.append('edge %d %d 0 3' % (v, v))
             for (a, b), w in sorted(zip(chosen, ws), key=lambda x: x[1]): c.append('edge %d %d %d 3' % (a, b, w))
-            c.append('cplx'); ex.append(c)
+            c += ['cplx', 'inceq 3']; ex.append(c)
     vlib.correspondence(ctx, 'full_featured_all_graphs_on_4_vertices', [exes['hC04_full']], drv, ex, nontrivial=nontriv, oracle=oracle, shrink=False)
     ctx.extra['partial'] = PARTIAL
 
